@@ -130,6 +130,7 @@ def parseInput (fields : List String) : Except String Input := do
       | some n => lim := n
       | none => throw "lim"
     else if k == "only" then only := v == "1"
+    else if k == "wire" then pure ()      -- transport used by the harness (fake pool / real gRPC over bufconn)
     else if k == "ign" then ign := (splitL "," v).map tok
     else if k == "F" then
       match parseFile v with
